@@ -197,8 +197,11 @@ class C36Engine(Engine):
         est = 22 + min(n, (52 * n) // max(1, bufsize) + 1)
         actors = []
         n_crash_budget = tape.pick("n_crashes", [0, 1, 1, 2, 3])
+        # a second table size in the same cache directory (different files must not disturb each other)
+        n2 = tape.pick("n_approx_2", N_CHOICES) if tape.chance("two_sizes", 0.25) else n
         for i in range(n_actors):
-            a = {"die_at": None, "torn_frac": 0.0, "kind": "grid" if tape.chance("actor_kind_grid", 0.15) else "cct"}
+            a = {"die_at": None, "torn_frac": 0.0, "kind": "grid" if tape.chance("actor_kind_grid", 0.15) else "cct",
+                 "n": n2 if (n2 != n and tape.chance("uses_n2", 0.5)) else n}
             if n_crash_budget > 0 and tape.chance("doomed", 0.6):
                 n_crash_budget -= 1
                 a["die_at"] = 1 + tape.choose("die_at", est + 4)
@@ -218,32 +221,44 @@ class C36Engine(Engine):
         n, distr, tt = spec["n"], spec["distr"], spec["total_tips"]
         ref = self.reference(n, distr, tt)
         log.add("SPEC", n, spec["bufsize"], spec["read_chunk"], spec["style"], tt, distr,
-                [(a["die_at"], a.get("torn_k"), round(a["torn_frac"], 6)) for a in spec["actors"]])
+                [(a["die_at"], a.get("torn_k"), round(a["torn_frac"], 6), a.get("n", n)) for a in spec["actors"]])
         w = simfs.World(tape, log, {"bufsize": spec["bufsize"], "read_chunk": spec["read_chunk"],
                                     "style": spec["style"]}, record_steps=record_steps)
 
-        def actor():
-            cct = self.prior.ConditionalCoalescentTimes(n, prior_distr=distr)
-            cct.add(tt, approximate=True)
-            return np.array(cct.approx_priors, copy=True), np.array(cct[tt], copy=True)
+        def make_actor(n_):
+            def actor():
+                cct = self.prior.ConditionalCoalescentTimes(n_, prior_distr=distr)
+                cct.add(tt, approximate=True)
+                return np.array(cct.approx_priors, copy=True), np.array(cct[tt], copy=True)
+            return actor
 
-        def actor_grid():
-            # the same cache reached through the public API: build_prior_grid(approximate_priors=True)
-            pr = self.tsdate.build_prior_grid(self.small_ts, population_size=1.0, timepoints=6,
-                                              approximate_priors=True, approx_prior_size=n, prior_distribution=distr)
-            return None, np.array(pr.grid_data, copy=True)
+        def make_actor_grid(n_):
+            def actor_grid():
+                # the same cache reached through the public API: build_prior_grid(approximate_priors=True)
+                pr = self.tsdate.build_prior_grid(self.small_ts, population_size=1.0, timepoints=6,
+                                                  approximate_priors=True, approx_prior_size=n_,
+                                                  prior_distribution=distr)
+                return None, np.array(pr.grid_data, copy=True)
+            return actor_grid
 
+        sizes = []
         for i, a in enumerate(spec["actors"]):
-            fn = actor_grid if a.get("kind") == "grid" else actor
+            n_ = a.get("n", n)
+            if n_ not in sizes:
+                sizes.append(n_)
+            fn = make_actor_grid(n_) if a.get("kind") == "grid" else make_actor(n_)
             w.spawn(f"run{i}", fn, die_at=a["die_at"], torn_frac=a["torn_frac"], torn_k=a.get("torn_k"))
             w.procs[-1].kind = a.get("kind", "cct")
+            w.procs[-1].n = n_
+        if len(sizes) > 1:
+            w.probe("two_table_sizes_in_one_directory")
         w.run(max_steps=60000)
         if w.step_cap_hit or w.deadlock:
             res["violations"].append(violation(
                 "run-stuck", "concurrent-runs",
                 f"simulated processes made no progress ({'deadlock' if w.deadlock else 'step cap'}) spec={spec}"))
         for p in w.procs:
-            self._judge(p, ref, "concurrent-run", res, spec, w)
+            self._judge(p, self.reference(p.n, distr, tt), "concurrent-run", res, spec, w)
 
         # the state later runs find
         snap = w.fs.snapshot()
@@ -259,15 +274,17 @@ class C36Engine(Engine):
             w.probe("litter_present")
         res["states"].append((n, hashlib.sha256(repr(sorted(snap.items())).encode()).hexdigest()[:16]))
 
-        later = w.spawn("later", actor)
-        later.kind = "cct"
-        w.run(max_steps=60000)
-        if w.step_cap_hit or w.deadlock:
-            res["violations"].append(violation(
-                "later-run-stuck", "later-run",
-                f"fault-free later run did not finish within the step budget (bounded liveness) spec={spec}"))
-        else:
-            self._judge(later, ref, "later-run", res, spec, w)
+        for n_ in sizes or [n]:
+            later = w.spawn("later", make_actor(n_))
+            later.kind = "cct"
+            later.n = n_
+            w.run(max_steps=60000)
+            if w.step_cap_hit or w.deadlock:
+                res["violations"].append(violation(
+                    "later-run-stuck", "later-run",
+                    f"fault-free later run did not finish within the step budget (bounded liveness) spec={spec}"))
+                break
+            self._judge(later, self.reference(n_, distr, tt), "later-run", res, spec, w)
 
         res["stats"].update(w.stats)
         res["stats"]["actors"] = len(spec["actors"])
@@ -304,13 +321,13 @@ class C36Engine(Engine):
             return
         table, priors = p.result
         if getattr(p, "kind", "cct") == "grid":
-            g = self.reference_grid(spec["n"], spec["distr"])
+            g = self.reference_grid(getattr(p, "n", spec["n"]), spec["distr"])
             ok = priors.shape == g.shape and np.array_equal(priors, g, equal_nan=True)
             w.log.add(p.pid, "JUDGE-GRID", ok)
             if not ok:
                 res["violations"].append(violation(
                     "silent-wrong-table", site + ":build_prior_grid",
-                    f"{p.name} (pid {p.pid}): build_prior_grid(approximate_priors=True, approx_prior_size={spec['n']}) "
+                    f"{p.name} (pid {p.pid}): build_prior_grid(approximate_priors=True, approx_prior_size={getattr(p, 'n', spec['n'])}) "
                     f"completed normally but its prior grid differs from the one built on a freshly computed table "
                     f"(max |d|={float(np.nanmax(np.abs(priors - g))) if priors.shape == g.shape else 'shape'}); "
                     f"spec={spec}"))
